@@ -3947,10 +3947,25 @@ async def _helper_rename_inbox(inbox: Mailbox, new_name: str) -> None:
     # NOTE: Message flags are preserved.
     #
     new_mbox = await server.get_mailbox(new_name)
+
+    # NOTE: Until the commit below the db knows none of the messages we put
+    #       in the new folder, and it has recorded the folder's mtime of this
+    #       very second: if we are killed in between, a restart would see no
+    #       reason to look at the folder and the messages would be invisible.
+    #       mtime 0 makes it look.
+    #
+    new_mbox.mtime = 0
+    await new_mbox.commit_to_db()
+
     uids = []
     new_msg_keys = []
+    moved_keys = []
     sequences: Sequences = defaultdict(set)
 
+    # First every message is copied to the new mailbox and the new mailbox is
+    # committed, then the messages are removed from the inbox: killed at any
+    # point, every message is in (at least) one of the two.
+    #
     # NOTE: Like COPY we move the octets of the message file (not a parsed and
     #       serialized again message) and keep the file's mtime: that is the
     #       message's internal date.
@@ -3969,15 +3984,11 @@ async def _helper_rename_inbox(inbox: Mailbox, new_name: str) -> None:
         new_msg_key = int(new_mbox.mailbox.add(msg))
         os.utime(mbox_msg_path(new_mbox.mailbox, new_msg_key), (mtime, mtime))
         new_msg_keys.append(new_msg_key)
+        moved_keys.append(key)
 
         for seq in inbox.sequences.keys():
             if key in inbox.sequences[seq]:
                 sequences[seq].add(new_msg_key)
-
-        try:
-            inbox.mailbox.remove(str(key))
-        except KeyError:
-            pass
 
     async with new_mbox.mh_sequences_lock:
         new_mbox.uids = uids
@@ -3985,7 +3996,50 @@ async def _helper_rename_inbox(inbox: Mailbox, new_name: str) -> None:
         new_mbox.msg_keys = new_msg_keys
         new_mbox.optional_resync = False
         new_mbox.set_sequences_in_folder(sequences)
+        new_mbox.mtime = await Mailbox.get_actual_mtime(
+            server.mailbox, new_mbox.name
+        )
         await new_mbox.commit_to_db()
+
+    # Now the inbox. As in expunge(): `.mh_sequences` and the db stop knowing
+    # the messages before their files go away, so that mail delivered in
+    # between (it gets the numbers that become free) inherits neither the
+    # flags nor the uids of the messages that were here.
+    #
+    doomed = set(moved_keys)
+    async with inbox.mh_sequences_lock:
+        try:
+            on_disk = inbox.mailbox.get_sequences()
+        except Exception:
+            on_disk = {}
+        inbox.mailbox.set_sequences(
+            {
+                name: sorted(set(keys) - doomed)
+                for name, keys in on_disk.items()
+                if set(keys) - doomed
+            }
+        )
+    kept = [
+        (k, u)
+        for k, u in zip(inbox.msg_keys, inbox.uids, strict=False)
+        if k not in doomed
+    ]
+    async with inbox.db_lock:
+        await server.db.execute(
+            "UPDATE mailboxes SET uids=?, msg_keys=?, num_msgs=? WHERE id=?",
+            (
+                compact_sequence([u for _, u in kept]),
+                compact_sequence([k for k, _ in kept]),
+                len(kept),
+                inbox.id,
+            ),
+        )
+        await server.db.commit()
+    for key in moved_keys:
+        try:
+            inbox.mailbox.remove(str(key))
+        except KeyError:
+            pass
 
     inbox.optional_resync = False
 
